@@ -118,7 +118,7 @@ func (a *arrivalRecorder) orders() map[string]int {
 func genXferCases(e *Env, n int, quicOnly bool) []xferCase {
 	r := vk.NewRng(e.Seed ^ vk.HashStr(e.Prop+e.Tier))
 	var cases []xferCase
-	shapes := []string{"onefile", "manysmall", "nested", "fewchunks", "boundary", "zerolen", "dirsonly", "empty", "prefixnames"}
+	shapes := []string{"onefile", "manysmall", "nested", "fewchunks", "boundary", "zerolen", "dirsonly", "empty", "prefixnames", "linksiblings"}
 	for i := 0; i < n; i++ {
 		var c xferCase
 		c.ID = fmt.Sprintf("%s-%05d", e.Prop, i)
@@ -282,7 +282,7 @@ func prepopulate(outDir string, tree vk.Tree, cfg vk.XferCfg, src, mode string, 
 	rr := vk.NewRng(seed ^ 0xabc)
 	k := 0
 	for _, en := range tree.Entries {
-		if en.Dir {
+		if en.Dir || en.Link != "" {
 			continue
 		}
 		k++
